@@ -2,6 +2,7 @@ package doubles
 
 import (
 	"context"
+	"reflect"
 	"errors"
 	"sync"
 	"time"
@@ -49,6 +50,10 @@ func (n *Network) Endpoint(id []byte) *FakeP2P {
 }
 
 func (n *Network) request(ctx context.Context, from, to []byte, m proto.Message) (p2p.P2PMessage, error) {
+	// the real transport marshals the message first: a nil pointer is an error there, nothing is sent
+	if m == nil || (reflect.ValueOf(m).Kind() == reflect.Ptr && reflect.ValueOf(m).IsNil()) {
+		return p2p.P2PMessage{}, errors.New("proto: Marshal called with nil")
+	}
 	n.mu.Lock()
 	target := n.nodes[string(to)]
 	key := string(from) + "|" + string(to) + "|" + typeName(m) + "|" + proto.CompactTextString(m)[:min(40, len(proto.CompactTextString(m)))]
